@@ -346,8 +346,13 @@ fn yieldspin_impl(x: &mut Exec, io: bool) -> Res {
     let errs = Arc::new(std::sync::Mutex::new(Vec::<String>::new()));
     let t0 = Instant::now();
     let what = ["sleep ends (timer thread)", "unparked by a thread", "spawned by a thread", "mpsc message sent by a thread", "semaphore posted by a thread", "datagram sent by a thread (udp recv)", "io timeout expires (udp recv with read timeout)"][kind as usize];
+    // yields of each spinner since the coroutine became ready: the verdict needs *every* spinner to have gone on for its
+    // share of the limit, i.e. every worker that holds one was demonstrably running (a worker that the OS keeps off the
+    // cpu for a second on a loaded machine must not count against may)
+    let since: Arc<Vec<AtomicU64>> = Arc::new((0..spinners).map(|_| AtomicU64::new(0)).collect());
+    let share = limit / spinners as u64;
     for i in 0..spinners {
-        let (done, abort, yields, mark, started, errs) = (done.clone(), abort.clone(), yields.clone(), mark.clone(), started.clone(), errs.clone());
+        let (done, abort, yields, mark, started, errs, since) = (done.clone(), abort.clone(), yields.clone(), mark.clone(), started.clone(), errs.clone(), since.clone());
         x.spawn(&format!("spin{}", i), true, move |a| {
             a.call("spin", i as u64);
             started.fetch_add(1, SeqCst);
@@ -365,11 +370,14 @@ fn yieldspin_impl(x: &mut Exec, io: bool) -> Res {
                     if (kind == 0 || kind == 6) && mine % 1024 == 0 && t0.elapsed() > Duration::from_micros(dur_us + pre_us) + Duration::from_secs(1) {
                         let _ = mark.compare_exchange(NOT_YET, y, SeqCst, SeqCst);
                     }
-                } else if y > m + limit {
-                    if !abort.swap(true, SeqCst) {
-                        errs.lock().unwrap().push(format!("the workers executed {} yields after the coroutine became ready ({}) and it still has not run", y - m, what));
+                } else {
+                    let n = since[i].fetch_add(1, Relaxed) + 1;
+                    if n % 1024 == 0 && n > share && since.iter().all(|c| c.load(Relaxed) > share) {
+                        if !abort.swap(true, SeqCst) {
+                            errs.lock().unwrap().push(format!("the workers executed {} yields after the coroutine became ready ({}), each of the {} spinners more than {}, and it still has not run", y - m, what, spinners, share));
+                        }
+                        break;
                     }
-                    break;
                 }
                 coroutine::yield_now();
             }
